@@ -110,7 +110,8 @@ def c18_b(ctx: Ctx):
             out.append(ctx.inc(R, f, f.node, "subset is not intersected with the index keys", construct=DS + "|subset-intersection"))
     cb = f.nested.get("_collect_by_type")
     if cb is not None:
-        ok = any(isinstance(n, ast.Subscript) and canon(n.slice) == "type(v)" for n in body_nodes(cb))
+        lt = {x for n in body_nodes(cb) if isinstance(n, ast.For) for x in common.target_names(n.target)}
+        ok = any(isinstance(n, ast.Subscript) and common.pmatch("type(V)", n.slice) is not None and canon(n.slice.args[0]) in lt for n in body_nodes(cb))
         if ok:
             out.append(ctx.ok(R, cb, cb.node, "values are grouped by type(v)"))
         else:
@@ -131,7 +132,12 @@ def c18_c(ctx: Ctx):
         if ("exclude_const", True) not in facts:
             continue
         hit = True
-        one = any(pol and t.replace(" ", "") in ("len(indexes[key])==1",) for (t, pol) in facts)
+        def _is_one(t):
+            try:
+                return common.pmatch("len(D[K]) == 1", ast.parse(t, mode="eval").body) is not None
+            except SyntaxError:
+                return False
+        one = any(pol and _is_one(t) for (t, pol) in facts)
         pop = any(pol and "len(index)" in t and "==" in t for (t, pol) in facts)
         if one and pop:
             out.append(ctx.ok(R, g, c, "a key is dropped as constant only if it has one distinct value and that value is held by every job"))
@@ -177,9 +183,17 @@ def c18_d(ctx: Ctx):
     if gets:
         out.append(ctx.viol(R, f, gets[0], f"{canon(gets[0])[:50]} is used as a combined presence-and-equality test: a key whose value is None in one job and missing in another is "
                             "treated as shared, so diff plus common part no longer reconstructs the state point (and the result depends on argument order)"))
-    if flat and "set.intersection(" in txt.replace(" ", "") or (flat and " & " in txt):
+    wrap = [c for c in body_nodes(f) if isinstance(c, ast.Call) and (common.ext_name(ctx, f, c) in ("json.dumps", "builtins.repr", "builtins.str", "pickle.dumps", "builtins.hash"))]
+    if wrap:
+        out.append(ctx.viol(R, f, wrap[0], f"values are compared through {canon(wrap[0].func)}(...) instead of as Python values: 4 and 4.0 (or True and 1), which compare equal, become different, so a "
+                            "key all jobs agree on appears in every job's diff"))
+    inter_defs = [n for n in body_nodes(f) if isinstance(n, ast.Assign) and len(n.targets) == 1 and isinstance(n.targets[0], ast.Name)
+                  and (common.pmatch("set.intersection(*A)", n.value) is not None or (isinstance(n.value, ast.BinOp) and isinstance(n.value.op, ast.BitAnd)))]
+    INT = inter_defs[0].targets[0].id if inter_defs else None
+    if flat and INT:
         out.append(ctx.ok(R, f, flat[0], "state points are flattened to (dotted key, value) pairs and intersected over all jobs"))
-        if " - intersection" in txt or ".difference(intersection" in txt:
+        minus = [b for n in body_nodes(f) if isinstance(n, ast.Assign) for (_, b) in (common.pfind("A - B", n.value) + common.pfind("A.difference(B)", n.value)) if canon(b["B"]) == INT]
+        if minus:
             out.append(ctx.ok(R, f, f.node, "each job's diff is its own pairs minus the common pairs"))
         else:
             out.append(ctx.inc(R, f, f.node, "per-job difference not recognised"))
@@ -187,7 +201,9 @@ def c18_d(ctx: Ctx):
         out.append(ctx.inc(R, f, f.node, "diff_jobs is not the recognised set algebra over flattened pairs"))
     from .lints import nested_builder
     out += nested_builder(ctx, R)
-    if "job.statepoint()" in txt or "job.sp()" in txt or "cached_statepoint" in txt:
+    jl = {x for lp, _b in common.loop_over(f, f.params[0] if f.params else "jobs") for x in common.target_names(lp.target)}
+    own = [b for n in body_nodes(f) if isinstance(n, ast.expr) for pat in ("J.statepoint()", "J.sp()", "J.cached_statepoint") for b in [common.pmatch(pat, n)] if b and canon(b["J"]) in jl]
+    if own:
         out.append(ctx.ok(R, f, f.node, "diffs are computed from each job's own state point", nontrivial=False))
     return out
 
